@@ -209,13 +209,32 @@ def _run(ctx, replay):
         # a history with explicit insertions into the built-in crystal array
         g = xrlops.OpGen(random.Random(ctx.rng.getrandbits(64)), meta)
         ops = g.ops(600, allow_retain=True)
-        names = ['ZzVerif%d' % k for k in range(3)]
+        names = ['AaVerif0', 'MmVerif1', 'ZzVerif2']      # before, between and after the built-in names: an insertion must leave the others alone wherever it lands
         for k, nm in enumerate(names):
             ops.insert(100 + 150 * k, 'AddBuiltin @%s %s E' % (['Si', 'Ge', 'LiF'][k], nm))
         ops += ['GetCrystal %s E' % names[0], 'CrystalsList E', 'AddBuiltin @Si %s E' % names[0]]
+        ops += ['Crystal_UnitCellVolume @%s E' % c for c in ('TlAP', 'Si', 'AlphaQuartz', 'Muscovite', 'Beryl')] + ['Crystal_dSpacing @TlAP 1 1 1 E']
         check_history(ops, C_ENV, 'insertion history', insertion=True)
         if not stats.get('insertion_changed') or not stats.get('insertion_visible'):
             rep['tie_broken'].append('explicit crystal insertion left no trace (changed=%s, visible=%s): the harness does not observe Crystal_arr' % (stats.get('insertion_changed'), stats.get('insertion_visible')))
+        # an error object returned by one call is never affected by later calls: a slot that still holds an error is handed to
+        # later failing calls (direct failures and failures one level down that are propagated) — harness/c04heap.c `err 6..11`
+        try:
+            from props import c04 as C4
+            from vlib import cbuild
+            hexe = ctx.sc.path('c04heap')
+            cbuild.link(ctx.sc, objs, [os.path.join(sl.VERIF, 'harness', 'c04heap.c')], hexe, fl + ['-I' + os.path.join(cbuild.REPO, 'src')] + C4.WRAP)
+            eg = [['err %d' % k] for k in range(6, 12)]
+            er = C4.run_heap(ctx, hexe, eg)
+            for i, g_ in enumerate(eg):
+                got, died = er.get(i, ([], 'not run'))
+                stats['compared'] += 1
+                if died is not None or not got or not got[0].startswith('1 '):
+                    findings.append(dict(kind='error-object', what='an error object already stored in a slot was replaced or changed by a later failing call (c04heap `%s`: %s)' % (g_[0], (got[0] if got else str(died)[-200:])),
+                                         ops=['# harness/c04heap.c: ' + g_[0]], env=C_ENV, got=(got[0] if got else 'died'), expected='1 … (slot untouched)', label='error persistence'))
+            stats['error_persistence_checks'] = len(eg)
+        except Exception as ex:
+            rep['tie_broken'].append('error-persistence step could not run: %s' % str(ex)[:300])
         # fork == exec: a sample of ops in genuinely fresh (exec'ed) processes
         sample = ctx.rng.sample(sorted(set(all_ops)), min(10 if ctx.tier == 'quick' else 60, len(set(all_ops))))
         fr, _ = fresh_results(sample, C_ENV)
